@@ -4,7 +4,7 @@ the draw path (`Tcell.Cmd`).  Conventions (DESIGN.md §6): a glyph of width 2 oc
 continuation cell to the right; overwriting one half of a wide glyph blanks the other half (modelled as
 *garbage*: nothing may be claimed about it); `clear` leaves cells nothing may be claimed about
 (everything is repainted after a clear anyway); printing with an unknown cursor or pen, or outside the
-grid, makes the whole grid garbage.  Byte-level behaviour is Layer B (`Tcell.Spec.Ecma48`).
+grid, makes the whole grid garbage; `insertChar` (ICH) is `insertAt` below.  Byte-level behaviour is Layer B (`Tcell.Spec.Ecma48`).
 -/
 import Tcell.Model.Draw
 namespace Tcell
@@ -51,6 +51,38 @@ def putAt (t : ATerm) (x y : Int) (bytes : List Nat) (width : Int) (st : Style) 
 def clampX (t : ATerm) (x : Int) : Int := if x < 0 then 0 else if x ≥ t.w then t.w - 1 else x
 def clampY (t : ATerm) (y : Int) : Int := if y < 0 then 0 else if y ≥ t.h then t.h - 1 else y
 
+/-- the cells of row `y` from column `x` to the right margin, rightmost first -/
+def rowFrom (t : ATerm) (x y : Int) : List (Int × Int) :=
+  (List.range (t.w - x).toNat).reverse.map fun (k : Nat) => (x + Int.ofNat k, y)
+
+/-- ICH, one character (ECMA-48 8.3.64, terminfo `ich1`) with the cursor at the in-grid cell (x,y): the cells from the
+cursor to the right margin move one column to the right, the last one falls off the line, an erased-state cell
+appears at the cursor; the cursor does not move.
+
+* The rendition of the erased cell is implementation-defined (xterm and the byte-level emulator
+  `Spec.Ecma48.Grid.insertBlanks` use a blank with the *background* of the pen, "bce"; other terminals the default
+  rendition), so nothing is claimed about it (`garbage`): tcell repaints that cell at once.
+* A wide glyph split by the operation is destroyed (both halves `garbage`): the glyph whose right half is under the
+  cursor (its left half stays behind) and the glyph whose right half is pushed over the right margin.  A wide glyph
+  that moves as a whole stays intact.
+* C13 ghosts: ICH changes what *every* cell from the cursor to the right margin displays, so all of them count as
+  written and as covered (`rowFrom`) — exactly the cells the byte-level emulator stamps (`Grid.touch`).  This is the
+  property's exception "the neighbour used to paint the bottom-right corner on auto-margin terminals". -/
+def insertAt (t : ATerm) (x y : Int) : ATerm :=
+  { t with
+    grid := fun i j =>
+      if j = y ∧ i = x then .garbage
+      else if j = y ∧ i = x - 1 ∧ t.grid x y = .cont then .garbage
+      else if j = y ∧ x < i ∧ i < t.w then
+        (match t.grid (i - 1) j with
+         | .shown b false st => .shown b false st
+         | .shown b true st => if i + 1 < t.w then .shown b true st else .garbage
+         | .cont => if i - 1 = x then .garbage else .cont
+         | .garbage => .garbage)
+      else t.grid i j
+    writes := t.rowFrom x y ++ t.writes
+    covered := t.rowFrom x y ++ t.covered }
+
 def apply (t : ATerm) : Cmd → ATerm
   | .goto x y => { t with cur := some (t.clampX x, t.clampY y) }
   | .setPen s => { t with pen := some s }
@@ -65,15 +97,7 @@ def apply (t : ATerm) : Cmd → ATerm
   | .clear _ => { t.allGarbage with cur := none, pen := none }
   | .insertChar =>
     match t.cur with
-    | some (x, y) =>
-      -- shift the rest of the line right by one; the vacated cell is blank (nothing is claimed about it)
-      { t with grid := fun i j =>
-          if j = y ∧ i = x then .garbage
-          else if j = y ∧ x < i then
-            (match t.grid (i - 1) j with
-             | .shown b false st => .shown b false st
-             | _ => .garbage)
-          else t.grid i j }
+    | some (x, y) => if t.inGrid x y then t.insertAt x y else { t.allGarbage with chaos := true }
     | none => { t.allGarbage with chaos := true }
 
 def applyAll (t : ATerm) (cs : List Cmd) : ATerm := cs.foldl apply t
